@@ -659,30 +659,46 @@ def namesOk (proj : Project) : Bool :=
     | some n => !isSupersededName n
     | none => true
 
+/-- what an import statement (of module `m`) binds its name to, as far as the statement says -/
+inductive ImpKey
+  | top (h : Name)                      -- `import h.…`: the root module `h`
+  | path (t : Path)                     -- `import t as x`: the module `t`
+  | frm (t : Option Nat) (n : Name)     -- `from <module t> import n …`
+  | other
+  deriving DecidableEq, Repr
+
+def impKey (proj : Project) (m : Nat) : Stmt → ImpKey
+  | .importMod (h :: _) none => .top h
+  | .importMod t (some _) => .path t
+  | .importFrom lvl M n _ => .frm (target proj m lvl M) n
+  | _ => .other
+
 mutual
-/-- the names bound by import statements inside class bodies, with the class they are bound in -/
-def classImportsStmt (m : Nat) : List Name → Stmt → List (Site × Name)
-  | cp, .classDef n _ body => classImports m (cp ++ [n]) body
+/-- the names bound by import statements inside class bodies, with the class they are bound in and
+what the statement binds them to -/
+def classImportsStmt (proj : Project) (m : Nat) : List Name → Stmt → List (Site × Name × ImpKey)
+  | cp, .classDef n _ body => classImports proj m (cp ++ [n]) body
   | cp, st => if cp.isEmpty then [] else
       match st.defName with
       | some _ => []
-      | none => (explicitNames st).map fun x => ((m, cp), x)
-def classImports (m : Nat) : List Name → List Stmt → List (Site × Name)
+      | none => (explicitNames st).map fun x => ((m, cp), x, impKey proj m st)
+def classImports (proj : Project) (m : Nat) : List Name → List Stmt → List (Site × Name × ImpKey)
   | _, [] => []
-  | cp, st :: rest => classImportsStmt m cp st ++ classImports m cp rest
+  | cp, st :: rest => classImportsStmt proj m cp st ++ classImports proj m cp rest
 end
 
-def classImportList (proj : Project) : List (Site × Name) :=
-  (List.range proj.length).flatMap fun m => classImports m [] (bodyOf proj m)
+def classImportList (proj : Project) : List (Site × Name × ImpKey) :=
+  (List.range proj.length).flatMap fun m => classImports proj m [] (bodyOf proj m)
 
 /-- the sub-class of `WF` for which soundness is proved for INHERITED members too: a name bound by an
-import inside a class body is bound by imports of that one class body only, and it is not the name
-of a definition or of a non-root module.  (With globally unique definition names this makes the
-definer of every class attribute unique, so the ORDER of the MRO does not matter.) -/
+import inside a class body is not the name of a definition made inside a class body, and the imports
+that bind it inside OTHER class bodies bind it to the same thing (same root module / same module / same
+name of the same module).  With globally unique definition names this makes the binding of every class
+attribute name unique in the project, so the ORDER of the MRO does not matter. -/
 def classImportsUnique (proj : Project) : Bool :=
   let L := classImportList proj
-  let E := (entities proj).map (fun S => (sitePath proj S).getLast?)
-  L.all fun a => (isRootName proj a.2 || !E.contains (some a.2)) && L.all fun b => a.2 != b.2 || a.1 == b.1
+  let E := ((entities proj).filter (fun S => decide (2 ≤ S.2.length))).map (fun S => (sitePath proj S).getLast?)
+  L.all fun a => !E.contains (some a.2.1) && L.all fun b => a.2.1 != b.2.1 || a.1 == b.1 || a.2.2 == b.2.2
 
 /-- **WF**: the property's quantifier — an acyclic multi-package project (`rank` is a topological
 index), names of definitions globally unique, each name bound once per scope — plus the
